@@ -225,13 +225,25 @@ func fe1(s string) (string, error) {
 	return s, nil
 }
 
-func fe2(s string) (string, error) {
+// fe2 reports its failure in the SECOND of two error results, next to a value (all results are spread into
+// goht.CaptureErrors by the generated code)
+func fe2(s string) (string, error, error) {
 	if failing["fe2"] {
-		return "", errExpr
+		return s, nil, errExpr
 	}
-	return s, nil
+	return s, nil, nil
 }
 `
+
+// ObjPrefix: the prefix argument of an object reference — a string literal, or a string expression of the environment
+func ObjPrefix(arg string, e Env) string {
+	arg = strings.TrimSpace(arg)
+	if strings.HasPrefix(arg, `"`) {
+		return strings.Trim(arg, `"`)
+	}
+	v, _ := evalStr(arg, e)
+	return v
+}
 
 // Batch is a built program for one generated file.
 type Batch struct {
@@ -542,7 +554,7 @@ func Table(p *gen.Printer, src string, e Env) []string {
 		case "objref":
 			pf := "-"
 			if i := strings.Index(fr.Text, ","); i >= 0 {
-				pf = hxu(strings.Trim(strings.TrimSpace(fr.Text[i+1:]), `"`))
+				pf = hxu(ObjPrefix(fr.Text[i+1:], e))
 			}
 			add("O:" + hxu(fr.Text) + "=both," + hxu(e.O0.ID) + "," + hxu(e.O0.Class) + "," + pf)
 		}
